@@ -259,7 +259,7 @@ def get():
 h = get()
 `
 
-var c05Opts = &syntax.FileOptions{Set: true, While: true, TopLevelControl: true, GlobalReassign: true, Recursion: true}
+var c05Opts = &syntax.FileOptions{Set: true, While: true, TopLevelControl: true, GlobalReassign: true, Recursion: false} // (the recursion check consults per-function state: keep it on)
 
 var c05Kinds = []string{"list", "dict", "set", "tuple", "struct", "closure", "bound", "prog"}
 
